@@ -3670,6 +3670,10 @@ fn now_ms() -> u64 {
         .unwrap_or(0)
 }
 
+#[cfg(kani)]
+#[path = "/verif/harness/ripd/continuities.rs"]
+mod verif_kani;
+
 #[cfg(test)]
 mod tests {
     use super::*;
